@@ -26,6 +26,9 @@ type Engine struct{}
 
 func (Engine) Name() string { return "roconc" }
 
+// StallIsHarnessTrouble: see engine.Staller.
+func (Engine) StallIsHarnessTrouble() bool { return true }
+
 type op struct {
 	name string
 	a, b int
@@ -582,6 +585,7 @@ func (Engine) Run(c *choice.Src, o engine.Opt) (out engine.Out) {
 		fns = append(fns, func() {
 			for _, p := range plans[ti] {
 				simrt.TaskYield()
+				engine.CurrentCall.Store(fmt.Sprintf("task %d %s(%d,%d)", ti, p.name, p.a, p.b))
 				results[ti] = append(results[ti], w.exec(p, own))
 			}
 		})
